@@ -70,14 +70,14 @@ Variable teq : sty -> sty -> Prop.
 Hypothesis Hteq : teq_laws D teq.
 Hypothesis HF : funs_typed D F teq.
 
-Lemma reachable_trans c0 c1 c2 : reachable D F c0 c1 -> reachable D F c1 c2 -> reachable D F c0 c2.
+Lemma reachable_trans md c0 c1 c2 : reachable D F md c0 c1 -> reachable D F md c1 c2 -> reachable D F md c0 c2.
 Proof. intros H1 H2. induction H2; auto. eapply reach_step; eauto. Qed.
 
 (* a run that ends in quiescence ends in a reachable, typed, quiescent configuration *)
 Lemma exec_run_quiescent fuel pick : forall Δ c cq,
-  cfg_typed D F teq Δ c -> (forall c', reachable D F c c' -> Topo c') ->
+  cfg_typed D F teq Δ c -> (forall c', reachable D F Async c c' -> Topo c') ->
   exec_run fuel pick Async D F c = RQuiescent cq ->
-  reachable D F c cq /\ quiescent Async D F cq /\ exists Δ', cfg_typed D F teq Δ' cq.
+  reachable D F Async c cq /\ quiescent Async D F cq /\ exists Δ', cfg_typed D F teq Δ' cq.
 Proof.
   induction fuel as [|fuel IH]; intros Δ c cq Hc Htopo; [simpl; discriminate|].
   rewrite (exec_run_S D F).
@@ -94,7 +94,7 @@ Proof.
     assert (Hcl : closed_unused D Async c).
     { intros self p k st. eapply topo_closed_unused; eauto. apply Htopo. apply reach_refl. }
     destruct (preservation_any D F teq Hteq HF Δ c ch c2 Hc Hcl Es) as [Δ' [_ Hc2]].
-    assert (Hstep : reachable D F c c2) by (eapply reach_step; [apply reach_refl|eauto]).
+    assert (Hstep : reachable D F Async c c2) by (eapply reach_step; [apply reach_refl|eauto]).
     destruct (IH Δ' c2 cq Hc2) as [Hr [Hq Ht]]; auto.
     + intros c' Hc'. apply Htopo. eapply reachable_trans; eauto.
     + split; auto. eapply reachable_trans; eauto.
@@ -111,41 +111,42 @@ Hypothesis teq_ok : forall p p', typecheck p = Accept p' -> teq_laws (p_types p'
 Hypothesis tc_annotations_typed : forall p p',
   typecheck p = Accept p' -> in_fragment p' -> static_typed (teqD (p_types p')) p'.
 
-Hypothesis topo_reachable : forall p p' c,
-  typecheck p = Accept p' -> in_fragment p' ->
-  reachable (p_types p') (p_funs p') (init_config p') c -> Topo c.
+Hypothesis topo_reachable : forall p p' md c,
+  typecheck p = Accept p' -> in_fragment p' -> is_np md = false ->
+  reachable (p_types p') (p_funs p') md (init_config p') c -> Topo c.
 
 Theorem initial_typed_accepted p p' :
   typecheck p = Accept p' -> in_fragment p' ->
   cfg_typed (p_types p') (p_funs p') (teqD (p_types p')) (init_delta p') (init_config p').
 Proof. intros Ha Hf. apply initial_typed; [exact (teq_ok p p' Ha)|exact (tc_annotations_typed p p' Ha Hf)]. Qed.
 
-(* C01, fragment, asynchronous mode: no schedule leads to a run-time error *)
-Theorem safety_partial p p' :
-  typecheck p = Accept p' -> in_fragment p' ->
+(* C01, fragment, the two polarized modes (asynchronous, synchronous): no schedule leads to a
+   run-time error *)
+Theorem safety_partial p p' md :
+  typecheck p = Accept p' -> in_fragment p' -> is_np md = false ->
   forall fuel pick c who e,
-    exec_run fuel pick Async (p_types p') (p_funs p') (init_config p') <> RError c who e.
+    exec_run fuel pick md (p_types p') (p_funs p') (init_config p') <> RError c who e.
 Proof.
-  intros Ha Hf fuel pick c who e.
+  intros Ha Hf Hnp fuel pick c who e.
   pose proof (tc_annotations_typed p p' Ha Hf) as [HF Hprocs].
-  apply (exec_run_safe (p_types p') (p_funs p') (teqD (p_types p')) (teq_ok p p' Ha) HF fuel pick
+  apply (exec_run_safe (p_types p') (p_funs p') (teqD (p_types p')) (teq_ok p p' Ha) HF md fuel pick Hnp
            (init_delta p') (init_config p') (initial_typed_accepted p p' Ha Hf)).
-  intros c' Hr self pr k st. eapply topo_closed_unused; [reflexivity|exact (topo_reachable p p' c' Ha Hf Hr)].
+  intros c' Hr self pr k st. eapply topo_closed_unused; [exact Hnp|exact (topo_reachable p p' md c' Ha Hf Hnp Hr)].
 Qed.
 
 (* every reachable configuration is typed (for some extension of the initial channel typing) *)
-Theorem reachable_typed p p' c :
-  typecheck p = Accept p' -> in_fragment p' ->
-  reachable (p_types p') (p_funs p') (init_config p') c ->
+Theorem reachable_typed p p' md c :
+  typecheck p = Accept p' -> in_fragment p' -> is_np md = false ->
+  reachable (p_types p') (p_funs p') md (init_config p') c ->
   exists Δ, init_delta p' ⊆ Δ /\ cfg_typed (p_types p') (p_funs p') (teqD (p_types p')) Δ c.
 Proof.
-  intros Ha Hf Hr. pose proof (tc_annotations_typed p p' Ha Hf) as [HF Hprocs].
+  intros Ha Hf Hnp Hr. pose proof (tc_annotations_typed p p' Ha Hf) as [HF Hprocs].
   induction Hr as [|c1 ch c2 Hr IH Hs].
   - exists (init_delta p'). split; auto. apply (initial_typed_accepted p p' Ha Hf).
   - destruct IH as [Δ [Hsub Hc]].
-    assert (Hcl : closed_unused (p_types p') Async c1).
-    { intros self pr k st. eapply topo_closed_unused; [reflexivity|exact (topo_reachable p p' c1 Ha Hf Hr)]. }
-    destruct (preservation_any _ _ _ (teq_ok p p' Ha) HF Δ c1 ch c2 Hc Hcl Hs) as [Δ' [Hsub' Hc']].
+    assert (Hcl : closed_unused (p_types p') md c1).
+    { intros self pr k st. eapply topo_closed_unused; [exact Hnp|exact (topo_reachable p p' md c1 Ha Hf Hnp Hr)]. }
+    destruct (preservation_md _ _ _ (teq_ok p p' Ha) HF md Δ c1 ch c2 Hnp Hc Hcl Hs) as [Δ' [Hsub' Hc']].
     exists Δ'. split; auto. etrans; eauto.
 Qed.
 
@@ -165,9 +166,10 @@ Proof.
   intros Ha Hf fuel pick c Hrun.
   pose proof (tc_annotations_typed p p' Ha Hf) as [HF Hprocs].
   destruct (exec_run_quiescent _ _ _ (teq_ok p p' Ha) HF fuel pick _ _ _
-              (initial_typed_accepted p p' Ha Hf) (fun c' Hc' => topo_reachable p p' c' Ha Hf Hc') Hrun)
+              (initial_typed_accepted p p' Ha Hf) (fun c' Hc' => topo_reachable p p' Async c' Ha Hf eq_refl Hc') Hrun)
     as [Hr [Hq [Δ Hc]]].
-  exists Δ. eapply progress_partial; eauto.
+  exists Δ. exact (progress_partial _ _ _ (teq_ok p p' Ha) HF Δ c Hc
+                     (topo_reachable p p' Async c Ha Hf eq_refl Hr) Hq).
 Qed.
 
 End Accepted.
